@@ -81,7 +81,7 @@ def detectSteps (bad : Bool) (fa : Option Int) : List Step :=
 /-- the steps that `afterSwitch` appends to its `pre` argument -/
 def asTail (cfg : Cfg) (i : In) (master : String) (light : Bool) : List Step :=
   match i.dcs.get? master with
-  | none => [.panic "clusterStateDcs[master]"]
+  | none => []
   | some md =>
     let bad := !md.pingOk || md.isFsReadonly
     let d := detectSteps bad i.failedAt
